@@ -139,6 +139,8 @@ def lex(s: str):
                             inside.append(("cr",))
                         elif s[j] == "\n":
                             inside.append(("lf",))
+                        elif s[j] > "\x7f":
+                            break       # a non-ASCII glyph aborts the sequence and is printed
                         else:
                             raise LexError(f"malformed CSI sequence {s[i:i + 12]!r}")
                         j += 1
@@ -146,7 +148,7 @@ def lex(s: str):
                         raise LexError("text ends inside a control sequence")
                     toks.append(("other",))
                     toks += inside
-                    i = j if s[j] == ESC else j + 1
+                    i = j if (s[j] == ESC or s[j] > "\x7f") else j + 1
                     continue
                 params, inter, final = m.group(1), m.group(2), m.group(3)
                 i = m.end()
@@ -201,8 +203,11 @@ def lex(s: str):
             elif k in "78=>\\":
                 i += 2          # save / restore cursor, keypad modes, stray ST
                 toks.append(("other",))
-            elif k == ESC:
-                i += 1          # ESC ESC: the first is aborted by the second
+            elif k == ESC or k > "\x7f":
+                i += 1          # ESC aborted by the next ESC / by a non-ASCII glyph (which is printed)
+                toks.append(("other",))
+            elif "\x30" <= k <= "\x7e" and k not in "PX^":
+                i += 2          # any other two-byte escape sequence (ESC Fp / Fe / Fs)
                 toks.append(("other",))
             else:
                 raise LexError(f"unknown escape ESC {k!r}")
